@@ -18,7 +18,7 @@ Payloads == { <<"x", SQ, "]", " ", "=", " ", "_", "_", "v", "(", ")", " ", "#">>
 \* the alias positions are crossed with the emission paths of to_dict: the single dict literal ("alias"), the per-field
 \* kwargs[...] assignments (omit_none with a converted Optional field: "aliasopt"; omit_default: "aliasdflt") and the
 \* by_alias keyword of TO_DICT_ADD_BY_ALIAS_FLAG ("aliasflag": called as to_dict(by_alias=True))
-Positions == {"alias", "aalias", "cfgalias", "tdkey", "forbid", "literal", "enumvalue", "discrfield", "allowname", "aliasopt", "aliasdflt", "aliasflag", "discrcfg"}
+Positions == {"alias", "aalias", "cfgalias", "tdkey", "forbid", "literal", "enumvalue", "discrfield", "allowname", "aliasopt", "aliasdflt", "aliasflag", "discrcfg", "literalpair"}
 
 \* ---- level 1: lexing theorems over all strings of length <= 4
 ReprSafe   == kind = "start" => \A x \in Strs(4) : Denotes(Repr(x), x)
@@ -30,6 +30,11 @@ RawSpliceRefuted == kind = "start" =>
                     /\ \A x \in Strs(3) : (\E i \in DOMAIN x : x[i] = SQ /\ (i = 1 \/ x[i - 1] # BS)) => ~Denotes(Raw(x), x)
 
 \* ---- level 2: classes
+\* two sibling Literal types in one class whose strings differ ONLY in characters outside [A-Za-z0-9_] (or, for a plain string,
+\* by a trailing underscore): each field accepts exactly its own string, whatever identifier a generated helper is filed under
+WordChars == {"n", "a", "é", "_"}
+Sib(x) == IF \A i \in DOMAIN x : x[i] \in WordChars THEN x \o <<"_">> ELSE [i \in DOMAIN x |-> IF x[i] \in WordChars THEN x[i] ELSE "_"]
+SibStr == Join(Sib(s))
 RootD(str) == <<"dc", "R", << <<"v", <<"int">>, <<"req">>, <<>> >> >>, <<>> >>
 SubD(str)  == <<"dc", "A", << <<"v", <<"int">>, <<"req">>, <<>> >> >>, << <<"bases", <<RootD(str)>> >>, <<"classvars", << <<str, S("a")>> >> >> >> >>
 \* class-level discriminator (Config.discriminator) together with forbid_extra_keys: the field name is an accepted key
@@ -55,6 +60,8 @@ ClassAt(p, str) ==
     [] p = "forbid"   -> <<"dc", "K", << F(<<"int">>, <<"req">>, << <<"alias", str>> >>) >>, << <<"serialize_by_alias", TRUE>>, <<"forbid_extra_keys", TRUE>> >> >>
     [] p = "tdkey"    -> <<"dc", "K", << F(<<"tdict", "TD", << <<str, <<"int">>, TRUE>> >> >>, <<"req">>, <<>>) >>, <<>> >>
     [] p = "literal"  -> <<"dc", "K", << F(<<"literal", << S(str), S("other") >> >>, <<"req">>, <<>>) >>, <<>> >>
+    [] p = "literalpair" -> <<"dc", "K", << F(<<"literal", << S(str) >> >>, <<"req">>, <<>>),
+                                             <<"g", <<"literal", << S(SibStr) >> >>, <<"req">>, <<>> >> >>, <<>> >>
     [] p = "enumvalue" -> <<"dc", "K", << F(<<"enum", "E", "Enum", << <<"M", S(str)>>, <<"N", S("other")>> >> >>, <<"req">>, <<>>) >>, <<>> >>
     [] p = "discrcfg" -> RootC(str)
     [] p = "discrfield" -> <<"dc", "K", << F(<<"discr", RootD(str), << <<"field", str>>, <<"include_subtypes", TRUE>> >> >>, <<"req">>, <<>>) >>, <<>> >>
@@ -65,6 +72,7 @@ ValueAt(p, str) ==
     [] p = "aliasdflt" -> <<"obj", "K", <<I(7), I(1)>> >>
     [] p = "tdkey" -> <<"obj", "K", << Dct(<< <<S(str), I(7)>> >>) >> >>
     [] p = "literal" -> <<"obj", "K", << S(str) >> >>
+    [] p = "literalpair" -> <<"obj", "K", << S(str), S(SibStr) >> >>
     [] p = "enumvalue" -> <<"obj", "K", << <<"enum", "E", "M">> >> >>
     [] p = "discrfield" -> <<"obj", "K", << <<"obj", "A", <<I(0)>> >> >> >>
     [] p = "discrcfg" -> <<"obj", "A", <<I(0)>> >>
@@ -93,6 +101,7 @@ ExactlyTheString ==
       [] pos = "aliasopt" -> Wire = Dct(<< <<S(Str), S("2024-01-02")>> >>)
       [] pos = "tdkey" -> Wire = Dct(<< <<S("f"), Dct(<< <<S(Str), I(7)>> >>)>> >>)
       [] pos \in {"literal", "enumvalue"} -> Wire = Dct(<< <<S("f"), S(Str)>> >>)
+      [] pos = "literalpair" -> Wire = Dct(<< <<S("f"), S(Str)>>, <<S("g"), S(SibStr)>> >>) /\ Dec = Ok(ValueAt(pos, Str))
       [] OTHER -> TRUE
 
 EmitInv == kind = "case" => PrintT(ToJson(<<"quote", pos, Str, T, ValueAt(pos, Str), Wire, Input, Dec, IF pos = "discrfield" THEN SubD(Str) ELSE IF pos = "discrcfg" THEN SubC(Str) ELSE <<>> >>))
